@@ -18,7 +18,7 @@ import sys
 import time
 
 ROOT = os.path.dirname(os.path.dirname(os.path.abspath(__file__)))
-REPO = "/repo"
+REPO = os.environ.get("VERIF_REPO", "/repo")
 
 
 def sh(cmd, cwd=None, env=None):
